@@ -43,4 +43,22 @@ CHECKS = {
     text="16 option factors of ift.optimize_kl (output directory, sanity checks, save strategy, plotting, constants, point estimates, n_samples 0/2/schedule, transitions, inspect callback arity, terminate callback, fresh stochasticity bool/callable, dry run, return_final_position, resume of a finished run, operator export, geoVI): every enumerated combination must complete, return the type and sample count the options imply, keep constant keys, write the files of its save strategy, call callbacks with the right indices and leave nifty.cl.random's stack depth and top generator unchanged. Four genuine defects repaired.",
     note="comm=None; tiny model, 3 iterations; quick = pairwise coverage (verified) not the full product.",
     ref="DESIGN.md section 6 (C27)"),
+ 'C02': dict(
+    engine='case-runner', level='exploration',
+    technique='exhaustive constructor-configuration product per exported operator class; each operator densified on the full real/imaginary unit basis in every mode and compared with an independent numpy reference definition',
+    text='47 exported LinearOperator classes x constructor-argument alphabets x input dtypes (2084 quick / 4764 thorough cases): dense TIMES matrix equals the independent reference definition, ADJOINT is its (real-ified) transpose, advertised inverses invert, homogeneity/additivity on all basis vectors/pairs, result domain is the declared target, input bytes unchanged. Ten defects repaired, six recorded as known findings.',
+    note='f8/c16 only, CPU only, small domains; LOSResponse with sigmas and sphere FuncConvolution only consistency-checked (no closed form).',
+    ref='DESIGN.md section for C02'),
+ 'C06': dict(
+    engine='case-runner', level='exploration',
+    technique='exhaustive enumeration of domain tuples x space subsets x dtypes x operations, each evaluated on a generic fill and on every one-hot array against numpy with independently derived volume arrays',
+    text='87 (thorough 773) domain tuples mixing RG/HP/GL/LM/Power/DOF/Unstructured spaces x every spaces subset x i8/f8/c16 (all dtype pairs for binary ops and vdot) x all arithmetic/comparison/contraction operations of Field and MultiField; mismatching domains must be rejected, rebuilt equal domains accepted. One-hot inputs decide the linear contractions for all values.',
+    note='values are alphabet values, structure exhaustive; domains <= 150 pixels; MultiField<op>Field broadcasting is a recorded known finding.',
+    ref='DESIGN.md section for C06'),
+ 'C13': dict(
+    engine='case-runner+rngseam', level='exploration',
+    technique='exhaustive operator-configuration product; the sampler is run on every unit vector of a scripted white-noise tape (RNG seam), giving the exact matrix L with sample = L xi; L L^H is compared with the dense covariance',
+    text='11280 (thorough 71784) cases: scaling, diagonal (all transforms), sandwich (16 buns x 11 cheeses), block-diagonal, sums, SamplingEnabler x adjoint/inverse adapters x forward/inverse draws x real/complex sampling dtype. Zero mean, linearity in the excitation (hence Gaussian), L L^H = C or C^-1 (2C for complex dtype, L L^T = 0) to round-off; operators that cannot be covariances must refuse. No Monte-Carlo step.',
+    note='distribution decided through linearity in the scripted excitation; CG inside SamplingEnabler run to 1e-13; documented limitations of the library count as declines (skips).',
+    ref='DESIGN.md section for C13'),
 }
